@@ -193,6 +193,14 @@ def handleIss (kv : KV) : String :=
 
 def handle (fs : List String) : String :=
   match fs with
+  | ["cel", beh, ttl, ioff] =>
+    -- a CEL role whose program answers NotAfter = now + ttl, under an issuer expiring at ioff (seconds from now)
+    match pLNAB beh, ttl.toInt?, ioff.toInt? with
+    | some b, some t, some io =>
+      match celNotAfter 0 t io b with
+      | .ok na => s!"ok na={na}"
+      | .error _ => "refused"
+    | _, _, _ => "bad-op"
   | ["idna", h] =>
     match pStr h with
     | some s => if !modelled s then "skip" else
